@@ -13,6 +13,11 @@ import (
 // function can convert.
 
 type node struct {
+	// MethodSrc (C07): the source struct has a fallible method Calc<ID>() that feeds the
+	// target field Calc<ID>. Ctor (C07): the struct's method uses goverter:default with a
+	// fallible constructor taking the source. Both need an ID field for fault keys.
+	MethodSrc bool
+	Ctor      bool
 	Kind   string // basic | nbasic | struct | ptr | slice | map | ustruct | ref | leaf
 	Basic  string
 	ID     int // named things: struct / nbasic / leaf id; ref: id of the struct referred to
@@ -112,6 +117,10 @@ func (s *Spec) genStruct(depth int) *node {
 		n.Fields = append(n.Fields, s.mkField(i, s.gen(depth+1, n), n))
 	}
 	s.structsAt = s.structsAt[:len(s.structsAt)-1]
+	if s.Prop == "C07" {
+		n.MethodSrc = s.rng.IntN(5) == 0
+		n.Ctor = s.rng.IntN(6) == 0
+	}
 	return n
 }
 
@@ -257,7 +266,7 @@ func sortedIDs[V any](m map[int]V) []int {
 func (s *Spec) TypesSource() string {
 	var b strings.Builder
 	b.WriteString("package w\n\n")
-	if len(s.Leaves) > 0 {
+	if s.usesRuntime() {
 		b.WriteString("import \"verifsim\"\n\n")
 	}
 	for _, id := range sortedIDs(s.NBasics) {
@@ -267,6 +276,12 @@ func (s *Spec) TypesSource() string {
 		n := s.Structs[id]
 		for _, side := range []string{"S", "T"} {
 			fmt.Fprintf(&b, "type %s%d struct {\n", side, id)
+			if n.MethodSrc || n.Ctor {
+				b.WriteString("\tID int\n")
+			}
+			if n.MethodSrc && side == "T" {
+				fmt.Fprintf(&b, "\tCalc%d int\n", id)
+			}
 			for _, f := range n.Fields {
 				name := f.Name
 				if side == "T" {
@@ -275,6 +290,19 @@ func (s *Spec) TypesSource() string {
 				fmt.Fprintf(&b, "\t%s %s\n", name, s.fieldExpr(f, side))
 			}
 			b.WriteString("}\n")
+		}
+	}
+	for _, id := range sortedIDs(s.Structs) {
+		n := s.Structs[id]
+		if n.MethodSrc {
+			fn := fmt.Sprintf("S%d.Calc%d", id, id)
+			fmt.Fprintf(&b, "func (s S%d) Calc%d() (int, error) {\n\tif verifsim.Poisoned(%q, s.ID) {\n\t\treturn 0, verifsim.Inject(%q, s.ID)\n\t}\n\treturn s.ID*7 + 1, nil\n}\n", id, id, fn, fn)
+			fmt.Fprintf(&b, "func (s S%d) TwinCalc%d() int { return s.ID*7 + 1 }\n", id, id)
+		}
+		if n.Ctor {
+			fn := fmt.Sprintf("NewT%d", id)
+			fmt.Fprintf(&b, "func %s(s S%d) (T%d, error) {\n\tif verifsim.Poisoned(%q, s.ID) {\n\t\treturn T%d{}, verifsim.Inject(%q, s.ID)\n\t}\n\treturn T%d{}, nil\n}\n", fn, id, id, fn, id, fn, id)
+			fmt.Fprintf(&b, "func Twin%s(s S%d) T%d { return T%d{} }\n", fn, id, id, id)
 		}
 	}
 	for _, id := range sortedIDs(s.Leaves) {
@@ -341,6 +369,19 @@ func (s *Spec) methods(twin bool) []methodSpec {
 			case f.TName != f.Name:
 				doc = append(doc, fmt.Sprintf("goverter:map %s %s", f.Name, f.TName))
 			}
+		}
+		if n.Ctor {
+			fn := fmt.Sprintf("NewT%d", id)
+			if twin {
+				fn = "Twin" + fn
+			}
+			doc = append(doc, "goverter:default "+fn)
+		}
+		if n.MethodSrc && twin {
+			doc = append(doc, fmt.Sprintf("goverter:map TwinCalc%d Calc%d", id, id))
+		}
+		if n.MethodSrc && !twin {
+			doc = append(doc, fmt.Sprintf("goverter:map Calc%d Calc%d", id, id))
 		}
 		isRoot := false
 		for _, r := range s.Roots {
@@ -429,4 +470,16 @@ func (s *Spec) ConverterSource() string {
 		render("TwinConverter", true)
 	}
 	return b.String()
+}
+
+func (s *Spec) usesRuntime() bool {
+	if len(s.Leaves) > 0 {
+		return true
+	}
+	for _, n := range s.Structs {
+		if n.MethodSrc || n.Ctor {
+			return true
+		}
+	}
+	return false
 }
